@@ -7,7 +7,7 @@ use serde::{Deserialize, Serialize};
 use serde_json::json;
 use std::collections::BTreeSet;
 
-pub const DIRS: &[&str] = &["", "a", "b", "b/b", "a/b", "src", "src/my lib", "d.ir", ".hid", "src/.cache", "ign", "a/ign", "b/a/b", "deep/er/still", "lib.py", "notes.md", "a/x.py", "src/w.toml", "y.rs", "legacy,v1"];
+pub const DIRS: &[&str] = &["", "a", "b", "b/b", "a/b", "src", "src/my lib", "d.ir", ".hid", "src/.cache", "ign", "a/ign", "b/a/b", "deep/er/still", "lib.py", "notes.md", "a/x.py", "src/w.toml", "y.rs", "legacy,v1", "c", "w", "o/i"];
 pub const FILES: &[&str] = &["x.py", "y.rs", "z.md", "x.js", "m.sh", "name with space.py", "dotted.name.rs", ".hidden.py", "skipme.py", "n.txt", "w.toml"];
 pub const GITIGNORE_LINES: &[&str] = &["ign/", "skipme.*", "/a/x.js", "*.log", "d.ir/y.rs", "!a/ign/x.py"];
 
@@ -33,6 +33,10 @@ pub struct ScopeCase {
     pub ignores: Vec<G>,
     /// indices (monotone u16) of files named in the diff; empty + interactive => no diff
     pub diff_files: Vec<u16>,
+    /// order and spelling of the arguments: 0 globs then `--ignore g` pairs, 1 `--ignore g` pairs then globs,
+    /// 2 `--ignore=g` forms in front of everything (also in front of `list`), 3 interleaved
+    #[serde(default)]
+    pub arg_order: u8,
     pub interactive: bool,
     /// directory index to start from (mapped onto existing directories)
     pub cwd: u8,
@@ -298,14 +302,43 @@ pub fn check(c: &ScopeCase, probe: &Probe) -> Verdict {
         d.into_iter().collect()
     };
     let cwd = dirs[c.cwd as usize % dirs.len()].clone();
+    // `pre` goes in front of the sub-command, `args` behind it
+    let mut pre: Vec<String> = vec![];
     let mut args: Vec<String> = vec![];
-    for g in &c.globs {
-        args.push(glob_text(g, &paths));
+    let globs: Vec<String> = c.globs.iter().map(|g| glob_text(g, &paths)).collect();
+    let ignores: Vec<String> = c.ignores.iter().map(|g| glob_text(g, &paths)).collect();
+    match c.arg_order % 4 {
+        0 => {
+            args.extend(globs.iter().cloned());
+            for g in &ignores {
+                args.extend(["--ignore".to_string(), g.clone()]);
+            }
+        }
+        1 => {
+            for g in &ignores {
+                args.extend(["--ignore".to_string(), g.clone()]);
+            }
+            args.extend(globs.iter().cloned());
+        }
+        2 => {
+            for g in &ignores {
+                pre.push(format!("--ignore={g}"));
+            }
+            args.extend(globs.iter().cloned());
+        }
+        _ => {
+            let n = globs.len().max(ignores.len());
+            for k in 0..n {
+                if let Some(g) = ignores.get(k) {
+                    args.extend(["--ignore".to_string(), g.clone()]);
+                }
+                if let Some(g) = globs.get(k) {
+                    args.push(g.clone());
+                }
+            }
+        }
     }
-    for g in &c.ignores {
-        args.push("--ignore".into());
-        args.push(glob_text(g, &paths));
-    }
+    probe.class(&format!("argument-order:{}", c.arg_order % 4));
     let want_in: BTreeSet<&str> = status.iter().filter(|(p, s)| *s == T::Yes && known_suffix(p)).map(|(p, _)| p.as_str()).collect();
     let unspec: BTreeSet<&str> = status.iter().filter(|(_, s)| *s == T::Unspec).map(|(p, _)| p.as_str()).collect();
     let has_b = paths.iter().any(|p| p.starts_with("b/"));
@@ -321,7 +354,7 @@ pub fn check(c: &ScopeCase, probe: &Probe) -> Verdict {
     probe.class_n("files:unspecified", unspec.len() as u64);
     let show = |what: &str, o: &Out| {
         format!(
-            "C15: {what}\nargs: {args:?}  cwd: {cwd:?}  interactive: {}\n.gitignore: {gi:?} nested: {}\nfiles (path -> expected): {:?}\ndiff names: {diff_set:?}\n--- diff ---\n{}\n--- observed ---\n{}",
+            "C15: {what}\nargs: {pre:?} [list] {args:?}  cwd: {cwd:?}  interactive: {}\n.gitignore: {gi:?} nested: {}\nfiles (path -> expected): {:?}\ndiff names: {diff_set:?}\n--- diff ---\n{}\n--- observed ---\n{}",
             c.interactive,
             c.nested_gitignore,
             status,
@@ -331,7 +364,10 @@ pub fn check(c: &ScopeCase, probe: &Probe) -> Verdict {
     };
     for sub in ["list", "validate"] {
         // the subcommand goes first (`blockwatch list <globs>`), as documented
-        let mut a: Vec<&str> = if sub == "list" { vec!["list"] } else { vec![] };
+        let mut a: Vec<&str> = pre.iter().map(String::as_str).collect();
+        if sub == "list" {
+            a.push("list");
+        }
         a.extend(args.iter().map(String::as_str));
         let mut run = if c.interactive { BwRun::scan(&a) } else { BwRun::diff(&a, diff.as_bytes()) };
         run.cwd = cwd.clone();
@@ -365,25 +401,25 @@ pub fn check(c: &ScopeCase, probe: &Probe) -> Verdict {
 }
 
 pub fn case_strategy() -> BoxedStrategy<ScopeCase> {
-    let g = || prop_oneof![(0u8..5).prop_map(G::Ext), (0u8..19).prop_map(G::Dir), (0u8..11).prop_map(G::Name), any::<u16>().prop_map(G::Exact)];
+    let g = || prop_oneof![(0u8..5).prop_map(G::Ext), (0u8..22).prop_map(G::Dir), (0u8..11).prop_map(G::Name), any::<u16>().prop_map(G::Exact)];
     (
-        proptest::collection::vec((prop_oneof![2 => Just(0u8), 2 => Just(2u8), 1 => Just(3u8), 6 => 0u8..20], 0u8..11), 2..14),
+        proptest::collection::vec((prop_oneof![2 => Just(0u8), 2 => Just(2u8), 1 => Just(3u8), 6 => 0u8..23], 0u8..11), 2..14),
         proptest::collection::vec(0u8..6, 0..4),
         proptest::bool::weighted(0.2),
         proptest::collection::vec(g(), 0..4),
         proptest::collection::vec(g(), 0..4),
-        proptest::collection::vec(any::<u16>(), 0..4),
+        (proptest::collection::vec(any::<u16>(), 0..4), 0u8..4),
         proptest::bool::weighted(0.3),
         any::<u8>(),
         prop_oneof![2 => Just(0u8), 1 => 0u8..8],
         prop_oneof![2 => Just(vec![]), 1 => proptest::collection::vec((0u8..19, any::<u16>()), 1..3)],
     )
-        .prop_map(|(tree, gitignore, nested_gitignore, globs, ignores, diff_files, interactive, cwd, renamed, links)| ScopeCase { tree, gitignore, nested_gitignore, globs, ignores, diff_files, interactive, cwd, renamed, links })
+        .prop_map(|(tree, gitignore, nested_gitignore, globs, ignores, (diff_files, arg_order), interactive, cwd, renamed, links)| ScopeCase { tree, gitignore, nested_gitignore, globs, ignores, diff_files, arg_order, interactive, cwd, renamed, links })
         .boxed()
 }
 
 pub fn run(run: &mut Run) {
-    run.rule = "random: a tree of 2..13 files over 20 directories (incl. a name with a comma, `a`, `b`, `b/b`, `b/a/b`, a name with a space, a dotted directory, hidden directories, git-ignored directories, directories named like files: `lib.py`, `notes.md`, `a/x.py`, `y.rs`) x 11 file names (5 languages, names with spaces/dots, hidden, git-ignored, unknown suffix), a generated .gitignore (+ optional nested one), in a third of the cases 1..2 symbolic links to healthy files of the tree plus two symbolic links to a directory whose own names look like source files (`zz_dirlink.py`, `src/chart.js`), 0..3 positional and 0..3 --ignore globs of the four documented forms (`*.ext`, `dir/**`, `**/name`, exact path), a real `git diff --cached -M` naming 0..3 of the files (each touched inside its block; some of them renamed, so that the `---` and `+++` paths differ) or interactive mode, started from the root or any sub-directory. Every file holds one uniquely named violating block; files outside the reference scope are rewritten as tripwires (unclosed start tag), so examining one fails the run. Reference scope = ((not hidden and not ignored by `git check-ignore --no-index`) and matches a positional glob — everything when interactive without globs) or named in the diff, minus --ignore matches; `*.ext` on nested paths is unspecified. Compared with the key sets of `list` and of the diagnostics. Non-trivial = a top-level directory `b` together with a diff-named file outside every glob / hit by an ignore glob / under `b/`.".into();
+    run.rule = "random: a tree of 2..13 files over 23 directories (incl. a name with a comma, top-level `c`, `w`, `o/i` (git's mnemonic diff prefixes), `a`, `b`, `b/b`, `b/a/b`, a name with a space, a dotted directory, hidden directories, git-ignored directories, directories named like files: `lib.py`, `notes.md`, `a/x.py`, `y.rs`) x 11 file names (5 languages, names with spaces/dots, hidden, git-ignored, unknown suffix), a generated .gitignore (+ optional nested one), in a third of the cases 1..2 symbolic links to healthy files of the tree plus two symbolic links to a directory whose own names look like source files (`zz_dirlink.py`, `src/chart.js`), 0..3 positional and 0..3 --ignore globs of the four documented forms in four argument orders / spellings (globs first, --ignore first, `--ignore=g` in front of the sub-command, interleaved) (`*.ext`, `dir/**`, `**/name`, exact path), a real `git diff --cached -M` naming 0..3 of the files (each touched inside its block; some of them renamed, so that the `---` and `+++` paths differ) or interactive mode, started from the root or any sub-directory. Every file holds one uniquely named violating block; files outside the reference scope are rewritten as tripwires (unclosed start tag), so examining one fails the run. Reference scope = ((not hidden and not ignored by `git check-ignore --no-index`) and matches a positional glob — everything when interactive without globs) or named in the diff, minus --ignore matches; `*.ext` on nested paths is unspecified. Compared with the key sets of `list` and of the diagnostics. Non-trivial = a top-level directory `b` together with a diff-named file outside every glob / hit by an ignore glob / under `b/`.".into();
     run.assumptions = vec![
         "git's own ignore matcher is the authority on .gitignore semantics; globs are matched by a harness-side matcher for the four documented forms only".into(),
         "default a/ b/ diff prefixes (no --no-prefix), paths free of characters git quotes".into(),
